@@ -86,7 +86,7 @@ def gen_names(r, k, net=False):
     return out, kinds
 
 
-def check_scope(ctx, scope, elems):
+def check_scope(ctx, scope, elems, flag_rule=True):
     ctx.count("scopes_checked")
     ids_ = []
     for e in elems:
@@ -118,7 +118,7 @@ def check_scope(ctx, scope, elems):
             if o is not e:
                 return "identifier-equals-sibling-name", "%s %r got identifier %r which is sibling %r's name ignoring case" % (
                     scope, e.name[:30], e["EDIF.identifier"][:30], o.name[:30])
-        if e["EDIF.identifier"] != e.name and not e.get("EDIF.rename", False):
+        if flag_rule and e["EDIF.identifier"] != e.name and not e.get("EDIF.rename", False):
             return "rename-not-recorded", "%s %r got identifier %r without EDIF.rename" % (scope, e.name[:30], e["EDIF.identifier"][:30])
     return None
 
@@ -231,6 +231,48 @@ def run_case(ctx, i, rng):
             from ..canon import first_diff
             ctx.violation("reread-names-differ", first_diff(want, got) or "names differ")
             return
+        if i % 3 == 0:
+            # the same netlist, already exported once (its elements now carry identifiers), gets some new names and is
+            # exported again: identifiers must again be legal and unique, and the file must show the names of NOW
+            renamed = 0
+            for scope, es in scopes:
+                if es and r.random() < 0.6:
+                    e = r.choice(es)
+                    new = r.choice(["renamed_%d" % renamed, "Renamed %d/x" % renamed, "r%d[new]" % renamed if scope != "net" else "rn%d.new" % renamed])
+                    try:
+                        e.name = new
+                        renamed += 1
+                    except ValueError:
+                        pass
+            ctx.count("elements_renamed_before_second_export", renamed)
+            f2 = os.path.join(d, "y.edf")
+            try:
+                sdn.compose(n, f2)
+            except Exception as ex:  # noqa: BLE001
+                ctx.violation("second-export-raised:%s" % type(ex).__name__, "%r at %s" % (ex, probes.innermost_frame(ex)))
+                return
+            for scope, es in scopes:
+                # (the EDIF.rename key is only written when an identifier is first assigned: on a later export the record
+                #  that counts is the rename construct in the file, judged by re-reading it below)
+                res = check_scope(ctx, scope, es, flag_rule=False)
+                if res:
+                    ctx.violation("second-export:" + res[0] + ":" + scope, res[1])
+                    return
+            try:
+                n3 = sdn.parse(f2)
+            except Exception as ex:  # noqa: BLE001
+                fr = probes.innermost_frame(ex) or ""
+                ctx.violation("second-export:written-file-rejected:%s:%s" % (type(ex).__name__, fr.split(":")[-1]), "%r at %s" % (str(ex)[:200], fr))
+                return
+            ctx.count("second_exports_reparsed")
+
+            def names_of(nl):
+                return {l.name: {dd.name: ([p.name for p in dd.ports], sorted(c.name for c in dd.cables), sorted(x.name for x in dd.children))
+                                 for dd in l.definitions} for l in nl.libraries}
+            if names_of(n) != names_of(n3):
+                from ..canon import first_diff
+                ctx.violation("second-export:reread-names-differ", first_diff(names_of(n), names_of(n3)) or "names differ")
+                return
     finally:
         shutil.rmtree(d, ignore_errors=True)
     ctx.fingerprint(tuple(sorted(originals.values())), any(k in ("case-only", "sanitised-same", "long", "truncation") for k in kinds_all))
